@@ -253,6 +253,38 @@ theorem wake_spec {u : Int} {s s1 : State} {i : Identity} {lag : Nat} (h : step 
       exact ⟨o, rfl, ha, rfl, rfl, rfl, rfl⟩
     · simp [ha] at h
 
+theorem wakeIssue_spec {u : Int} {s s1 : State} {i : Identity} (h : step u s (.wakeIssue i) = some s1) :
+    ∃ o, s.ops i = some o ∧ o.sleeping = true ∧ o.inflight = none ∧ s1.now = s.now ∧ s1.status = s.status ∧ s1.ver = s.ver ∧
+      s1.ops = updOp s.ops i { o with sleeping := false, inflight := some s.now } := by
+  simp only [step] at h
+  cases hk : s.ops i with
+  | none => simp [hk] at h
+  | some o =>
+    simp only [hk] at h
+    by_cases ha : (o.sleeping && o.inflight.isNone) = true
+    · rw [if_pos ha] at h
+      simp only [Option.some.injEq] at h
+      subst h
+      simp only [Bool.and_eq_true, Option.isNone_iff_eq_none] at ha
+      exact ⟨o, rfl, ha.1, ha.2, rfl, rfl, rfl, rfl⟩
+    · simp [ha] at h
+
+theorem land_spec {u : Int} {s s1 : State} {i : Identity} (h : step u s (.land i) = some s1) :
+    ∃ o t, s.ops i = some o ∧ o.inflight = some t ∧ s1.now = s.now ∧
+      s1.status = s.status.patch i (touchVal u o.prio o.lifetime t) ∧
+      s1.ops = updOp s.ops i { o with inflight := none } ∧ s1.ver = s.ver + 1 := by
+  simp only [step] at h
+  cases hk : s.ops i with
+  | none => simp [hk] at h
+  | some o =>
+    simp only [hk] at h
+    cases ht : o.inflight with
+    | none => simp [ht] at h
+    | some t =>
+      simp only [ht, Option.some.injEq] at h
+      subst h
+      exact ⟨o, t, rfl, ht, rfl, rfl, rfl, rfl⟩
+
 /-- a call ends in sleep-then-touch exactly when somebody blocks the operator -/
 theorem decideCore_touch {u : Int} {st : Status} {i : Identity} {p : Int} {ac : Bool} {tg : Option Bool} {now now2 : Int} :
     (decideCore u st.peers i p ac tg now now2).touch = blockedB u st i p now := by
@@ -413,6 +445,12 @@ theorem inv_step {u : Int} {s s' : State} {l : Label} (hi : Inv u s) (h : step u
     exact inv_frame hi (by omega) (fun _ => hst) (hops_upd ho hops rfl rfl rfl)
   | wake i lag =>
     obtain ⟨o, ho, _, _, _, hops, hver⟩ := wake_spec h
+    exact inv_frame hi (by omega) (fun e => by omega) (hops_upd ho hops rfl rfl rfl)
+  | wakeIssue i =>
+    obtain ⟨o, ho, _, _, _, hst, hver, hops⟩ := wakeIssue_spec h
+    exact inv_frame hi (by omega) (fun _ => hst) (hops_upd ho hops rfl rfl rfl)
+  | land i =>
+    obtain ⟨o, t, ho, _, _, _, hops, hver⟩ := land_spec h
     exact inv_frame hi (by omega) (fun e => by omega) (hops_upd ho hops rfl rfl rfl)
   | tick d =>
     simp only [step, Option.some.injEq] at h
